@@ -158,6 +158,10 @@ def ro_check(kind, setup, ops, scratch):
                 pass          # the set-up left a file where the directory 'a' is needed: nothing to compare
         # mounting through the view: the composite it hands out must not open a way around the view
         import liquer.store as S
+        # (MemoryStore.get_metadata refreshes derived fields of the record it keeps - key, name, is_dir - in place when it is read; the direct
+        # operations of the previous phases may have left such fields stale: read everything once, so that the raw snapshot taken next is
+        # one that reads alone do not alter)
+        L.observe(u, K, unK, OBS)
         raw0, keys0 = L.raw_snapshot(u), sorted(u.keys())
         try:
             comp = view.mount("zz-mounted", S.MemoryStore())
